@@ -123,15 +123,15 @@ class Builder:
 
 # reviewed iteration-over-a-set sites: (module, function, construct prefix) -> why the order cannot reach a signature
 SET_ORDER_REVIEWED = {
-    ("ufl.cell", "Cell.__init__", "tuple(set(i))"): "distinct sub-entity cell types per dimension: a singleton for every cell except prism / pyramid facets; a lookup list, not part of any expression or signature",
+    ("ufl.cell", "Cell.__init__", "tuple(set(_))"): "distinct sub-entity cell types per dimension: a singleton for every cell except prism / pyramid facets; a lookup list, not part of any expression or signature",
     ("ufl.form", "Form.geometric_dimension", "tuple(set("): "only its length and (sorted) error text are used",
-    ("ufl.sobolevspace", "SobolevSpace.__init__", "[p_.parents for p_ in p]"): "arguments of frozenset.union: order free",
-    ("ufl.algorithms.analysis", "extract_type", "for o in base_form_ops"): "accumulates into a list that is only merged into the result set (objects.update)",
-    ("ufl.algorithms.analysis", "extract_terminals_with_domain", "[f for f in terminals if isinstance(f, BaseArgument)]"): "sorted by number and part before it is returned",
-    ("ufl.algorithms.analysis", "extract_terminals_with_domain", "[f for f in terminals if isinstance(f, BaseCoefficient)]"): "sorted by count before it is returned",
-    ("ufl.algorithms.analysis", "extract_terminals_with_domain", "[f for f in terminals if isinstance(f, GeometricQuantity)]"): "sorted by (type name, domain id) before it is returned",
-    ("ufl.differentiation", "BaseFormDerivative._analyze_form_arguments", "(arg for a in arguments.ufl_operands for arg in extract_type("): "per direction operand the extracted set holds the single argument of that direction; base-form argument tuples do not enter Form.signature()",
-    ("ufl.core.base_form_operator", "BaseFormOperator._analyze_form_arguments", "(a for arg in arguments for a in extract_type("): "sorted by argument number afterwards (ties between equally numbered arguments of composed operators keep set order; base-form-operator slots do not enter Form.signature(), see known finding F11b)",
+    ("ufl.sobolevspace", "SobolevSpace.__init__", "[_.parents for _ in _]"): "arguments of frozenset.union: order free",
+    ("ufl.algorithms.analysis", "extract_type", "for _ in _"): "accumulates into a list that is only merged into the result set (objects.update)",
+    ("ufl.algorithms.analysis", "extract_terminals_with_domain", "[_ for _ in _ if isinstance(_, BaseArgument)]"): "sorted by number and part before it is returned",
+    ("ufl.algorithms.analysis", "extract_terminals_with_domain", "[_ for _ in _ if isinstance(_, BaseCoefficient)]"): "sorted by count before it is returned",
+    ("ufl.algorithms.analysis", "extract_terminals_with_domain", "[_ for _ in _ if isinstance(_, GeometricQuantity)]"): "sorted by (type name, domain id) before it is returned",
+    ("ufl.differentiation", "BaseFormDerivative._analyze_form_arguments", "(_ for _ in _.ufl_operands for _ in extract_type("): "per direction operand the extracted set holds the single argument of that direction; base-form argument tuples do not enter Form.signature()",
+    ("ufl.core.base_form_operator", "BaseFormOperator._analyze_form_arguments", "(_ for _ in _ for _ in extract_type("): "sorted by argument number afterwards (ties between equally numbered arguments of composed operators keep set order; base-form-operator slots do not enter Form.signature(), see known finding F11b)",
 }
 
 
